@@ -266,6 +266,8 @@ def gen_job(rng, shape=None, rich=None, git=None):
                 "target": target, "latest": latest,
                 "qmode": rng.choice(["clean", "rmtree", "lacking", "lacking", "rerun"]),
                 "out": rng.choice(["file", "file", "dir", "default"]),
+                # -o may name any file: the archive is a gzip-compressed tar whatever the name says
+                "suffix": rng.choice([".tar.gz", ".tar.gz", ".tar", "-2026", ".tgz", ".tar.xz"]),
                 "plant_aidx": rng.random() < 0.2,
                 "rm_dir": rng.random() < 0.08,
                 "cwd": rng.choice(["", "", "sub"]),
@@ -318,7 +320,7 @@ def e2e_job(job):
             argv.append("--latest")
         apath = None
         if v["out"] == "file":
-            apath = os.path.join(src, "arch", "a%d.tar.gz" % vi)
+            apath = os.path.join(src, "arch", "a%d%s" % (vi, v.get("suffix", ".tar.gz")))
             argv += ["-o", apath]
         elif v["out"] == "dir":
             argv += ["-o", os.path.join(src, "arch")]
